@@ -18,7 +18,7 @@ def decVars {α : Type} [Wire α] : Sexp → Option (List (String × VarType α)
 /-! ### builder call histories (`history` request)
 
 ```
-request  ::= history (ops OP*) [(solution SOL (handles N*) (exprs E*) (cnames STR*))]
+request  ::= history (ops OP*) [(solution|readback SOL (handles N*) (exprs E*) (cnames STR*))]   -- solution: through solve_with (linearize first); readback: the read-backs only
 OP       ::= (add-var STR T) | (add-vars STR N T) | (with BC) | (with-all BC*) | (maximize E) | (minimize E) | (satisfy)
 BC       ::= (bc STR cmp E E true|false)                      -- all (public) fields of a `BuilderConstraint`
 SOL      ::= (sol (value N) (assign (STR val)*) (rows (STR N)*) (duals (STR N)*))
@@ -89,6 +89,13 @@ def history (α : Type) [Arith α] [Wire α] (ops : List Sexp) (rest : List Sexp
       match s.intoModel with | some m => encRModel m | none => app "index-panic" []]
     match rest with
     | [] => app "ok" head
+    | [.list [.atom "readback", sol, .list (.atom "handles" :: hs), .list (.atom "exprs" :: es), .list (.atom "cnames" :: cs)]] =>
+      -- read-backs only (the solution is wrapped with the names directly)
+      match (decSol sol : Option (SolverWrap.Solution α)), optAll (hs.map decNat), (optAll (es.map Exp.dec) : Option (List (Exp α))),
+          optAll (cs.map fun | .str c => some c | _ => none) with
+      | some sol, some hs, some es, some cs =>
+        app "ok" (head ++ [readback { solution := sol, variableNames := s.variableNames } hs es cs])
+      | _, _, _, _ => app "err" [.atom "decode-solution"]
     | [.list [.atom "solution", sol, .list (.atom "handles" :: hs), .list (.atom "exprs" :: es), .list (.atom "cnames" :: cs)]] =>
       match (decSol sol : Option (SolverWrap.Solution α)), optAll (hs.map decNat), (optAll (es.map Exp.dec) : Option (List (Exp α))),
           optAll (cs.map fun | .str c => some c | _ => none) with
